@@ -45,6 +45,46 @@ T = {
  "C19-2": ("from_vec no longer truncates a longer vector", "a recycled vector longer than width x height"),
  "C20-1": ("PathBuilder::arc: last quadratic forced onto Arc::to() (unclamped start+sweep)", "sweeps beyond one full turn"),
  "C20-2": ("Path::transform: translation-only shortcut taken whenever m11 == m22 == 1", "shear transforms with a unit diagonal"),
+ "C01-3": ("rasterizer.rs sort_edges: compares x floored to quarter pixels", "two edges less than 1/4 px apart in the wrong list order whose x floor to the same quarter cell but round to different ones (negative span length)"),
+ "C01-4": ("rasterizer.rs add_edge: edges starting above the surface intersected with y=0 in 30.2 integers instead of being stepped", "sloped edge with y1 < 0 whose exact crossing of y=0 is off the quarter grid"),
+ "C02-3": ("draw_target.rs blend_row_mask_clip: early-out on the shape mask before the clip is multiplied in", "clip path + non-SrcOver mode + shape overlapping pixels the clip path excludes"),
+ "C02-4": ("draw_target.rs pop_layer: composites over the whole surface instead of layer.rect", "clip stack changed between push_layer and pop_layer (outer clip popped inside the layer)"),
+ "C03-3": ("blitter.rs ShaderBlendBlitter: whole scratch row passed to the blend proc", "fill_rect fast path narrower than the surface with Src-like modes"),
+ "C03-4": ("draw_target.rs pop_layer: opacity byte 255 composited without a mask (clip path ignored)", "push_layer(1.0) + clip path in force at pop time + non-SrcOver layer blend or antialiased clip edge"),
+ "C04-3": ("stroke.rs MoveTo arm: start cap of non-final open subpaths not flipped", "Round/Square cap, at least two subpaths, the affected one open and not last (every dash of a dashed stroke)"),
+ "C04-4": ("draw_target.rs scaled_tolerance: divides by max(|m11|,|m22|) instead of sqrt|det|", "curved path stroked under a rotation near 90 degrees / axis swap"),
+ "C05-3": ("draw_target.rs push_clip: early-out when the clip path touches no surface pixel", "clip path entirely off the surface / empty / zero-area (must clip everything)"),
+ "C05-4": ("draw_target.rs fill_rect: clip_stack.is_empty() guard dropped from the fast path", "clip path in force + integer fill_rect / draw_image under the identity directly on the surface"),
+ "C06-3": ("draw_target.rs clear(): direct fill of the top layer buffer when the clip has no path mask", "clip rect narrowed after push_layer, then clear()"),
+ "C06-4": ("draw_target.rs pop_layer: early return for empty layers placed between transform reset and restore", "empty layer + non-identity transform at pop time"),
+ "C07-3": ("rasterizer.rs add_edge: curve bounds no longer widened by the control point", "quad whose x-extremum lies inside the segment and is the leftmost part of the path (panic in MaskSuperBlitter)"),
+ "C07-4": ("draw_target.rs composite_surface: early-out tests the clamped source rect instead of the destination rect", "destination wholly left/right of the target while rows overlap (negative width cast to usize)"),
+ "C08-3": ("draw_target.rs cubic_to: cubic-to-quad tolerance scaled by the transform although points are already in device space", "CubicTo under a strongly down-scaling transform"),
+ "C08-4": ("rasterizer.rs add_edge: curve bounds tightened to the t=1/2 point", "asymmetric quad bulging beyond its end points and every other vertex"),
+ "C09-3": ("dash.rs: first_dash reset moved from MoveTo to Close", "open subpath reaching a gap, then MoveTo, then a closed subpath shorter than its first dash"),
+ "C09-4": ("dash.rs: offset normalisation as floored modulo in f32", "dash offsets of magnitude 3e7 and more"),
+ "C10-3": ("draw_target.rs fill(): early return (without rasterizer.reset) when the bounds miss the clip rect", "push_clip_rect, a fill wholly outside it, then any later rasterising call"),
+ "C10-4": ("rasterizer.rs reset(): bucket range ends at the first sub-scanline of the last row", "edge starting in the last touched pixel row at y fraction >= .25, then a later fill / clip"),
+ "C11-3": ("draw_target.rs scaled_tolerance: divides by |det| instead of sqrt|det|", "curved stroke under a strongly down-scaling transform"),
+ "C11-4": ("blitter.rs choose_shader: sweep gradient matrix composed as transform.then(ti)", "sweep gradient with off-origin centre under a non-translation transform"),
+ "C12-3": ("blitter.rs choose_shader: sweep gradient matrix order swapped", "sweep gradient, non-translation CTM, centre away from the origin"),
+ "C12-4": ("draw_target.rs new_linear_gradient: start subtracted after the rotation (then_translate)", "vertical / right-to-left / off-origin diagonal linear gradients"),
+ "C13-3": ("blitter.rs ImageRepeatAlphaShader: later tiles restart at the span's first column", "Repeat + integer translation with x offset not a multiple of the width, span crossing a tile boundary"),
+ "C13-4": ("blitter.rs ImagePadAlphaShader: right run filled with the raw edge texel (alpha dropped)", "Pad + integer translation + alpha < 1 + pixels right of the image"),
+ "C14-3": ("draw_target.rs fill_rect fast path: SrcOver switched to Src for opaque solids, forgetting the global alpha", "opaque solid, SrcOver, alpha < 1, fast path"),
+ "C14-4": ("draw_target.rs fill_rect fast path: corner normalisation removed", "negative integer width or height"),
+ "C15-3": ("blend_surface: rows whose source pixels are all zero skipped", "Src/Clear/SrcIn/DstIn/SrcOut/DstAtop with a fully transparent source row over a non-zero destination"),
+ "C15-4": ("composite_surface: whole-rows fast path tests the block width against the clamped src_rect instead of the source stride", "block spanning the destination's full width taken from a wider source, at least two rows"),
+ "C16-3": ("flatten(): cubics that lyon calls linear emitted as a single LineTo", "cubic whose control points are collinear with the chord but project outside it"),
+ "C16-4": ("flatten(): rebuilt on PathBuilder, winding rule lost", "EvenOdd path with a region of even non-zero winding, flattened copy used directly"),
+ "C17-3": ("contains_point: LineTo without current point no longer sets first_point", "path beginning with line_to (e.g. arc on a fresh builder) with a sloped closing edge"),
+ "C17-4": ("contains_point: EvenOdd parity via count % 2 == 1", "EvenOdd with the orientation that counts down"),
+ "C18-3": ("draw_target.rs blend_row_mask_clip switched to alpha_lerp with a 257 weight at full coverage", "clip path + non-SrcOver + fully covered pixel with a decreasing channel"),
+ "C18-4": ("impl From<Color> for Source builds the SolidSource field by field (no premultiplication)", "translucent colour arriving through Source::from(Color)"),
+ "C19-3": ("write_png: colour of fully transparent pixels zeroed", "pixel 0x00RRGGBB with non-zero colour"),
+ "C19-4": ("write_png: encoder dimensions swapped", "non-square surface"),
+ "C20-3": ("PathBuilder::arc: sweeps beyond a full turn clamped to +2pi (sign dropped)", "sweep < -2pi"),
+ "C20-4": ("Path::transform rebuilt through PathBuilder, winding rule lost", "EvenOdd path"),
 }
 rows = []
 for sid, (what, needs) in sorted(T.items()):
